@@ -141,9 +141,17 @@ pub fn gen_plan(seed: u64, index: usize, _tier: Tier) -> Plan {
         3 => rng.usize(2, 3),
         _ => rng.usize(4, 8),
     };
+    // one run in eight: the endpoint allows 6 concurrent uni streams and the peer opens 8-14
+    // uni streams of unknown type, leaving them all open: "any number" of ignored streams must
+    // not use up what the session's own streams need
+    let flood = rng.chance_pm(125);
+    if flood {
+        base.k.max_uni = 6;
+    }
+    let n = if flood { rng.usize(8, 14) } else { n };
     let mut ins = Vec::new();
     for _ in 0..n {
-        let at = rng.pick(&[Where::ControlEarly, Where::ControlLate, Where::BeforeHeaders, Where::SessionStream, Where::InSettings, Where::UniEarly, Where::UniLate]).clone();
+        let at = if flood { rng.pick(&[Where::UniEarly, Where::UniLate]).clone() } else { rng.pick(&[Where::ControlEarly, Where::ControlLate, Where::BeforeHeaders, Where::SessionStream, Where::InSettings, Where::UniEarly, Where::UniLate]).clone() };
         let grease = rng.chance_pm(350);
         let (ty, value) = match at {
             Where::InSettings => {
@@ -199,7 +207,7 @@ pub fn gen_plan(seed: u64, index: usize, _tier: Tier) -> Plan {
             payload_hex: hex(&payload),
             as_capsule,
             value,
-            fin: rng.coin(),
+            fin: !flood && rng.coin(),
         });
     }
     let rl = *rng.pick(&[0usize, 3, 40]);
@@ -266,6 +274,11 @@ pub fn compile(p: &Plan) -> Script {
         if i.fin {
             acts.push(Act::Fin { slot });
         }
+        if p.base.k.max_uni < 20 {
+            // behave as a conforming peer: reset what the endpoint asked us to stop
+            acts.push(Act::Gap);
+            acts.push(Act::ResetStopped);
+        }
         slot += 1;
     }
     // CONNECT exchange with frames inserted before HEADERS
@@ -294,6 +307,10 @@ pub fn compile(p: &Plan) -> Script {
         acts.push(Act::Write { slot, hex: hex(&b) });
         if i.fin {
             acts.push(Act::Fin { slot });
+        }
+        if p.base.k.max_uni < 20 {
+            acts.push(Act::Gap);
+            acts.push(Act::ResetStopped);
         }
         slot += 1;
     }
